@@ -5,7 +5,7 @@ S=/verif/seeded/$1; ID=$2; TIER=${3:-quick}; W=/tmp/try-$1-$ID
 git -C /repo worktree remove --force $W 2>/dev/null; rm -rf $W $W-ev
 git -C /repo worktree add -q --detach $W HEAD || exit 2
 if ! git -C $W apply "$S/patch.diff" 2>/tmp/apply.$1.err; then echo "seed=$1 check=$ID PATCH DOES NOT APPLY: $(head -3 /tmp/apply.$1.err)"; git -C /repo worktree remove --force $W; exit 3; fi
-cd /verif && VERIF_REPO=$W VERIF_EVIDENCE=$W-ev bin/check $ID --tier $TIER > /tmp/try_seed_wt.$1.$ID.out 2>&1; rc=$?
+cd ${VERIF_DIR:-/verif} && VERIF_REPO=$W VERIF_EVIDENCE=$W-ev bin/check $ID --tier $TIER > /tmp/try_seed_wt.$1.$ID.out 2>&1; rc=$?
 git -C /repo worktree remove --force $W; rm -rf $W $W-ev
 echo "seed=$1 check=$ID tier=$TIER exit=$rc $(grep -c '^VIOLATION' /tmp/try_seed_wt.$1.$ID.out) violation line(s)"
 grep -E "^VIOLATION|HARNESS" /tmp/try_seed_wt.$1.$ID.out | head -3
